@@ -539,3 +539,11 @@ func (in *Interp) tokenBytesEqual(a, b value) (*smt.Term, bool) {
 	in.unsupported("bytes.Equal of a codec token with raw bytes")
 	return nil, true
 }
+
+func init() {
+	noop := func(in *Interp, c *frame, fn *ssa.Function, a []value) value { return nil }
+	reg("runtime.LockOSThread", noop)
+	reg("runtime.UnlockOSThread", noop)
+	// internal/abi.NoEscape hides a pointer from escape analysis through uintptr arithmetic: identity
+	reg("internal/abi.NoEscape", func(in *Interp, c *frame, fn *ssa.Function, a []value) value { return a[0] })
+}
